@@ -79,6 +79,12 @@ PROPS = {
         'level_note': "Trusted: Lean kernel; harness. Not modelled: that the Go runtime fires the deadline on time (the harness only observes the deadline handed to the lister, +-60 ms).",
         'rule': "namespace updates that trigger the dry run; populations 0-12 and 2999/3000/3001/3100; expiry index none / 0..n+1 / around the cap; request deadlines none, 0.2-10 s. distinct_nontrivial = distinct requests with a non-plain response",
     },
+    'C16': {
+        'race': True,
+        'level_text': "Theorems C16_uid (interleaving machine of HandleValidate: for every number of in-flight reviews and every schedule each answer carries its own uid, in the `copies` variant), C16_variant_is_copies (fact F6: the code stores the UID through a fresh object), C16_buggy_witness (the pre-fix variant fails on a 5-step schedule), C16_malformed / C16_wellformed (request screening), C16_limit. The real handler is driven over HTTP by 16 concurrent clients under the race detector, each verdict compared with a fresh admission controller's, plus every malformed class.",
+        'level_note': "Trusted: Lean kernel; harness; factx's origin analysis. Partial: net/http, JSON codec and goroutine scheduling are not modelled (sequentially consistent interleaving of three atomic steps per request); data races are observed with the race detector. Two genuine defects were found and fixed (known_findings.json).",
+        'rule': "16 clients x N pod CREATE/UPDATE reviews with unique uids over privileged (shared response), exempt, baseline, restricted and malformed-label namespaces; 16 malformed classes (sizes around 3 MiB, content types, undecodable, v1beta1, other kind, no request). distinct_nontrivial = reviews sent",
+    },
     'C18': {
         'level_text': "Theorems C18_pod / C18_controller (ExactlyOnce: enforce evaluation iff enforce-policy annotation, with the response's decision; exemption iff exempt; error iff flagged; audit/warn denial iff reported; nothing else) and C18_namespace, C18_label_bounded / C18_label_finite, C18_counts / C18_counts_perm / C18_reset; metric event lists of the real code compared with the model; the real PrometheusRecorder is driven from 16 goroutines and gathered.",
         'level_note': "Trusted: Lean kernel; harness. Not modelled: atomicity of Prometheus counters (observed under the race detector in the recorder run).",
